@@ -374,7 +374,11 @@ def tooled(fn):
     """
     if is_tooled(fn):
         return fn
-    return transform(fn, proceed=proceed)
+    new_fn = transform(fn, proceed=proceed)
+    # An absolute reference (/module/path) finds the code that was defined at
+    # that place, hence fn: it stands for the tooled function.
+    fn.__ptera__ = new_fn
+    return new_fn
 
 
 def inplace(fn):
